@@ -3,11 +3,64 @@ import drivers.c14  # noqa: F401   (registers the drivers)
 
 PROP = "C14"
 LEVEL = "exploration"
-LEVEL_TEXT = "..."
-LEVEL_NOTE = "..."
+LEVEL_TEXT = ("Bounded run-time contracts: all six belief-propagation flavours (D1BP, HD1BP, HV1BP, L1BP, D2BP, L2BP; function "
+              "and class interfaces) are run on random acyclic networks with at most 9 tensors (chains, stars, trees, forests, "
+              "hyper-trees, label dimensions 1..3, stored exponents, positive / signed / complex data) and the returned value / "
+              "norm, the index and tensor marginals, reduced density matrices, sampling probabilities and the dense tensor "
+              "after BP gauging / compression without truncation are compared with brute-force numpy sums over the joint array; "
+              "the option grid (damping, update order, local convergence, normalisation, initial messages, return form) is "
+              "sampled per case and enumerated systematically for schedule independence. Region-graph counting numbers are "
+              "checked exhaustively on small families. Nothing is proved for unbounded sizes; the deductive contract on "
+              "combine_local_contractions is merged from contracts/c14_bp.py.")
+LEVEL_NOTE = ("Trusted: numpy broadcasting / sum / einsum / svd as reference semantics on the raw tensor data of the inputs; "
+              "tolerances: messages converged with tol=1e-11 (max_iterations far above the diameter), values and marginals "
+              "1e-6 relative (3e-3 for single precision with quimb's default tol); signed / complex inputs are regenerated "
+              "until |Z| >= 1e-3 sum|terms| (no near-cancellation); inverse-gauge routes only on networks all of whose bonds "
+              "have full rank (singular-value ratio >= 1e-3).")
 TECHNIQUE = "run-time contracts on the real functions vs independent numpy references over a stated bounded domain (bounded stand-in)"
 E1 = []
 PROVIDERS = []
-TRUSTED = ["numpy reference computations"]
-ASSUMPTIONS = ["..."]
-EXPLANATION = "..."
+TRUSTED = [
+    "numpy broadcasting product, sum, einsum(optimize='greedy'), matmul and svd on dense arrays (reference semantics of value, "
+    "norm, marginals, reduced density matrices, gate application, bond conditioning)",
+    "the driver's own generator of acyclic factor graphs (tensor--label incidence graph is a forest by construction)",
+    "cotengra path optimisers used inside quimb return valid contraction paths",
+]
+ASSUMPTIONS = [
+    "geometries: 1..9 tensors; chains, stars, random trees, forests (2..3 components, isolated rank-0 tensors), hyper-trees / "
+    "hyper-stars / hyper-forests (a label on 3+ tensors) for HD1BP / HV1BP only; label dimensions 1..3 per label (HV1BP: one "
+    "dimension for all labels, as the flavour requires); outer (dangling) labels for HD1BP / HV1BP / D2BP / L2BP, none for D1BP "
+    "/ L1BP (documented for D1BP; L1BP.contract() cannot handle them); lazy flavours with groups of 1..n tensors per site whose "
+    "group graph is a forest; joint array capped at 1e5 entries",
+    "data: positive uniform(0.2,1.2), signed normal, complex normal; float64 / complex128 everywhere, float32 / complex64 in ~15% "
+    "of the value cases with quimb's default tol; stored exponent 0, +-1.3 (one-norm), +-0.7 (two-norm)",
+    "options sampled per case: damping {0, 0.3, 0.7}, update {sequential, parallel} (HV1BP parallel only), local_convergence, "
+    "normalize {default, L1, L2, Linf, L2phased}, strip_exponent, function vs class interface, initial messages default / "
+    "uniform / random positive / supplied dictionary (D2BP: random positive definite, also partly supplied); progbar=False; "
+    "diis, custom distance functions, thread pools and non-numpy backends are not covered",
+    "a run that the rolling-mean rule ends while the messages still change by >= 1e-6 (single precision 1e-3) is reported under "
+    "its own contract ('converged=True is not reported while ...') and not judged for exactness; a rolling-mean stop on a "
+    "plateau below that is accepted and judged by the value",
+    "gauging / compression: max_bond=None, cutoff=0.0, messages converged to 1e-11; insertion of square-root messages and "
+    "removal by the returned inverses, gauge_temp and D2BP.gate_ only on networks whose bonds all have full rank (with exactly "
+    "singular messages the default smudge 1e-12 makes the inverse gauges 1e12 large and the result numerically meaningless)",
+    "reduced density matrices: D2BP.partial_trace for single sites and adjacent pairs, L2BP.partial_trace for one-tensor sites, "
+    "normalised; sampling: positive data for the one-norm flavours, all data kinds for sample_d2bp, bias False/True resp. None/2",
+    "region graphs: families of 1..3 subsets of 4 (quick) / 5 (thorough) nodes exhaustively, 600 random families of 4..6 subsets "
+    "of 6 nodes, autocomplete=True only",
+]
+EXPLANATION = (
+    "E3 (bounded): ten drivers. (1) one-norm-value-on-trees: contract_d1bp / hd1bp / hv1bp / l1bp and D1BP / HD1BP / HV1BP / L1BP "
+    ".run().contract() == sum over all labels of the product of the tensors x 10**exponent, convergence reported, input "
+    "untouched. (2) one-norm-marginals-and-sampling: compute_index_marginal, compute_all_index_marginals_from_messages, "
+    "compute_tensor_marginal from HD1BP / HV1BP messages (class and run_belief_propagation_*), sample_hd1bp / sample_hv1bp "
+    "(configuration, tn_config weight, omega == exact probability). (3) two-norm-value-and-marginals: contract_d2bp / "
+    "contract_l2bp / classes == sum |psi|^2, D2BP.compute_marginal, D2BP.partial_trace, L2BP.partial_trace. (4) "
+    "bp-gauging-and-compression-untruncated: gauge_all('bp'), gauge_all_belief_propagation(_), gauge_d2bp, compress_d2bp, "
+    "D2BP.compress / gauge_symmetric / gauge_insert / gauge_temp, TensorNetwork.gauge_insert(bp), compress_l2bp, "
+    "L2BP.compress, D2BP.gate_, D1BP / HD1BP.get_gauged_tn. (5) two-norm-sampling: sample_d2bp. (6) schedule-independence: "
+    "update x damping x local_convergence x initial messages for all six flavours, values and rescaled messages. (7) "
+    "region-graph-counting-numbers: RegionGraph and gen_region_counts vs intersection closure and Moebius counts. (8) "
+    "combine-local-contractions. (9) bp-object-normalisations-and-corrections-on-trees: normalize_message_pairs / "
+    "normalize_messages / normalize_tensors / get_normalized_tn, contract_gloop_expand / contract_loop_series_expansion / "
+    "contract_with_loops on loop-free networks.")
